@@ -53,6 +53,10 @@ fn main() {
         machine::install_panic_hook();
         std::process::exit(c15::worker_main(&args[2..]));
     }
+    if args[1] == "--c19-tsan" {
+        machine::install_panic_hook();
+        std::process::exit(c19::tsan_main(&args[2..]));
+    }
     let id = args[1].to_uppercase();
     let mut tier = std::env::var("VERIF_TIER").unwrap_or_else(|_| "quick".to_string());
     let mut seed: u64 = std::env::var("VERIF_SEED").ok().and_then(|s| s.trim().parse::<i64>().ok()).map(|x| x as u64).unwrap_or(1);
